@@ -262,8 +262,9 @@ def run(tier, seed):
     rep = Report(PID, tier, seed, "translation_validation")
     ps = programs_for(tier, seed)
     cses = (True, False)
-    tasks = [(task, (p, cse, tier, seed)) for p in ps for cse in cses] + [(task_regimes, (p, True, tier, seed)) for p in ps]
-    for d in pmap(_dispatch, tasks):
+    from .common import pmap_staged
+
+    for d in pmap_staged(_dispatch, [(task_regimes, (p, True, tier, seed)) for p in ps], [(task, (p, cse, tier, seed)) for p in ps for cse in cses]):
         rep.merge(d)
     rep.bounds = {"programs": [p.id for p in ps], "cse": list(cses), "inputs": "all reals (dt, state, control, calibration) where the expressions are defined", "outside": "floating-point rounding; programs outside the corpus"}
     rep.assumptions = ["reals for doubles", "UF abstraction of sin/cos/exp with derivative rules applied by the harness differentiator (sin'->cos, cos'->-sin, exp'->exp)", "covariance validity gates of the constructor treated as assumptions"]
